@@ -2150,6 +2150,12 @@ static vbi_bool vbi_proxyd_take_message( PROXY_CLNT *req, VBIPROXY_MSG * pMsg )
             }
             pthread_mutex_unlock(&proxy.dev[req->dev_idx].queue_mutex);
 
+            /* must make very sure strict is within bounds, because it's used as array index */
+            if (pBody->service_req.strict < VBI_MIN_STRICT)
+               pBody->service_req.strict = VBI_MIN_STRICT;
+            else if (pBody->service_req.strict > VBI_MAX_STRICT)
+               pBody->service_req.strict = VBI_MAX_STRICT;
+
             if ( vbi_proxyd_take_service_req(req, pBody->service_req.services,
 					     pBody->service_req.strict,
 					     (char *) req->msg_buf.body.service_rej.errorstr) )
